@@ -94,6 +94,14 @@ EffectsOK(P, R) ==
           /\ (~e[g].print => R.formatted[g].file = e[g].file)
     /\ R.writes = Written(P)
 
+\* what each group delivers (prints or writes) is the rendering of the assembled
+\* output in THAT group's own format and parameters: R.delivered[g] carries a
+\* checksum of the delivered bytes (sum) and of a rendering made on the spot
+\* from the group's format alone (want); what the rendering of a format must be
+\* is the subject of Formats.tla and Listing.tla (C11, C12)
+ContentOK(R) ==
+    R.asm_error \/ \A g \in 1..Len(R.delivered) : R.delivered[g].sum = R.delivered[g].want
+
 \* a single -d x=... decides the value of the constant x of the input
 DefineEffectOK(P, R) ==
     (~R.asm_error /\ Len(P.defines) = 1 /\ P.defines[1].name = "x") => SameDefine(P.defines[1], R.xval)
@@ -112,6 +120,7 @@ TCli ==
                   [] Outcome(P) = "no-input" -> Verdict("reject-effects", Rejected(R))
                   [] OTHER -> /\ Verdict("asm-options", AsmOptionsOK(P, R))
                               /\ Verdict("effects", EffectsOK(P, R))
+                              /\ Verdict("content", Len(R.delivered) = Len(R.formatted) /\ ContentOK(R))
                               /\ Verdict("define-effect", DefineEffectOK(P, R))
 
 \* ---- bin -----------------------------------------------------------------
